@@ -20,10 +20,10 @@ if [ "${ALLFEAT:-0}" = "1" ]; then
   echo "all_features_suite_with_patch: $suite2" >> "$out"
 fi
 cp "$V/demo.rs" tests/seeded_demo.rs
-d1=$(cargo test $fflag --test seeded_demo --offline 2>&1 | grep -E "^test result|error(\[|:)" | head -3 | tr '\n' ' ')
+d1=$(cargo test $fflag --test seeded_demo --offline 2>&1 | grep -E "^test result|^error(\[|:)" | tail -3 | tr '\n' ' ')
 echo "demo_with_patch: $d1" >> "$out"
 git checkout -q -- src
-d2=$(cargo test $fflag --test seeded_demo --offline 2>&1 | grep -E "^test result|error(\[|:)" | head -3 | tr '\n' ' ')
+d2=$(cargo test $fflag --test seeded_demo --offline 2>&1 | grep -E "^test result|^error(\[|:)" | tail -3 | tr '\n' ' ')
 echo "demo_without_patch: $d2" >> "$out"
 rm -f tests/seeded_demo.rs; git checkout -q -- .
 ok=1
